@@ -896,6 +896,46 @@ Definition ign_expected (now : Z) (db : list (str * expiry)) : list (str * Z) :=
   map (fun he => (fst he, e_int (snd he))) (filter (ign_kept now) db).
 
 (* ------------------------------------------------------------------ *)
+(* configuration as an explicit input (added).  The options the code reachable from each reader and
+   from the writers reads are regenerated into T16.CONF_READ_*; the only one any of that code can reach
+   today is supybot.protocols.irc.strictRfc, through IrcChannel.addBan, if the channel reader stores its
+   records with the setters (tables CHAN_READER_BAN_VIA_SETTER / CHAN_READER_IGN_VIA_SETTER). *)
+Record config := Config { cf_strict : bool }.        (* supybot.protocols.irc.strictRfc *)
+
+(* IrcChannel.addBan:    assert not strictRfc() or isUserHostmask(hostmask)
+   IrcChannel.addIgnore: assert isUserHostmask(hostmask)                    -- when the reader goes through them *)
+Definition chan_post_check (cfg : config) (k : ccmd) (rest : str) : option exn :=
+  let pat := match split_ws rest with p :: _ => p | [] => [] end in
+  match k with
+  | CBan => if gen.T16.CHAN_READER_BAN_VIA_SETTER && cf_strict cfg && negb (is_user_hostmask pat)
+            then Some AssertionError else None
+  | CIgnore => if gen.T16.CHAN_READER_IGN_VIA_SETTER && negb (is_user_hostmask pat)
+               then Some AssertionError else None
+  | _ => None
+  end.
+
+Definition chan_exec_cf (cfg : config) (cmd rest : str) (st : cstate) : cstate * option exn :=
+  match dict_get cmd chan_cmds with
+  | Some k => match chan_handler k rest st with
+              | Ok st' => match chan_post_check cfg k rest with
+                          | Some e => (st, Some e)
+                          | None => (st', None)
+                          end
+              | Raise e => (st, Some e)
+              end
+  | None => if existsb (seq_eqb cmd) gen.T16.CHAN_ATTRS then (st, Some TypeError) else (st, Some ValueError)
+  end.
+
+(* ChannelsDictionary.open under the configuration in force at load time *)
+Definition read_channels_from_cf (cfg : config) (n0 : option str) (text : str) : cstate * option exn :=
+  rread cstate chan_new chan_finish (chan_exec_cf cfg) text (CState n0 fresh_chan false []).
+Definition read_channels_cf (cfg : config) (text : str) := read_channels_from_cf cfg None text.
+(* the writers, and the ignores / networks readers, reach no configuration option at all (CONF_READ_* = []) *)
+Definition write_channels_cf (cfg : config) (db : list (str * chan)) : str := write_channels db.
+Definition write_ignores_cf (cfg : config) (now : Z) (db : list (str * expiry)) : str := write_ignores now db.
+Definition read_ignores_cf (cfg : config) (text : str) : list (str * Z) := read_ignores text.
+
+(* ------------------------------------------------------------------ *)
 (* wire                                                                *)
 
 Definition vZ (z : Z) : value := I z.
@@ -942,6 +982,8 @@ Definition run (v : value) : value :=
   | 9 => vS (write_ignores (gZ (nth_v 0 p)) (gPairs gExp (nth_v 1 p)))
   | 10 => vPairs vZ (read_ignores (gS p))
   | 11 => vB (ign_dom (gZ (nth_v 0 p)) (gPairs gExp (nth_v 1 p)))
+  | 14 => let r := read_channels_from_cf (Config (gB (nth_v 0 p))) (gO gS (nth_v 1 p)) (gS (nth_v 2 p)) in
+          L [vPairs vChan (cs_db (fst r)); vExn (snd r); vO vS (cs_name (fst r))]
   | 12 => vB (glob (gS (nth_v 0 p)) (gS (nth_v 1 p)))
   | 13 => vB (is_user_hostmask (gS p))
   | _ => L []
